@@ -2,40 +2,74 @@
    Statements only; every proof is `exact <lemma>` into C20_proofs.v.
 
    Model: GuiLoop.v -- the loop of `launch_rdp_thread` (src/bin/mstsc-rs.rs) as a transition
-   system: `wait_for_fd` sees only the socket's queue of TLS records, `read` consumes one PDU
-   through the TLS object's plaintext buffer, the server / the GUI act through [env_step].
-   A schedule [list (option action)] interleaves environment actions ([Some a]) with single
-   steps of the thread ([None]) in ANY order, so every theorem below holds for every moment of
-   the wait / lock / read cycle at which an event can occur and for every packing of the PDUs
-   into records ([Send r], r any list of PDU fragments and PDU ends).
+   system, step by step: select on the socket (AtWait) / load of `sync` (AtSync) / lock() of the
+   shared client mutex (AtLock, blocks while the GUI holds it) / read of one PDU through the TLS
+   object's plaintext buffer, repeated while the TLS layer holds decrypted data (AtRead) / guard
+   dropped (AtUnlock, or AtDrop on the error path) / the closure returns and drops its clone of
+   the Arc (AtRet) / Exited.  The server AND the GUI thread act through [env_step]: the GUI's
+   lock(), try_write(), shutdown(), guard drop and `sync.store(false)` are actions chosen by the
+   scheduler, possible only when the mutex allows them.
+   A schedule [list (option action)] interleaves server and GUI actions ([Some a]) with single
+   steps of the thread ([None]) in ANY order (a step that is blocked stutters), so every theorem
+   below holds for every moment of the wait / sync / lock / read / unlock cycle at which an event
+   can occur, for every packing of the PDUs into records ([Send r], r any list of PDU fragments
+   and PDU ends) and for every interleaving with the GUI's critical sections and input writes.
    [repaired] = the loop as /repo has it after the two fix commits (the correspondence runs
    this variant against the real thread); [original] = the loop as found.
 
-   PARTIAL BY NATURE (named in the evidence): the model has no real scheduler, no mutex fairness
-   between the GUI and the receive thread, no select(2) corner cases (EINTR), no TCP segmentation
-   inside a TLS record, and takes OpenSSL's record handling as "one record per pull, no
-   read-ahead"; those are sampled by the seeded runs of the real thread only. *)
+   FAIRNESS.  Safety statements need none.  Where the thread has to get somewhere, the hypothesis
+   is on the schedule [fin] that follows, and it is a number:
+       silent fin            the server does nothing in fin (GUI actions and thread turns only)
+       turns repaired fin s  the turns the scheduler gives the thread in fin at moments when the
+                             thread is NOT sitting in lock() on a mutex held by the GUI
+       fuel_of s <= turns repaired fin s
+   with fuel_of s = 5 per pending PDU fragment + 1 per pending record + 8.  In words: the scheduler
+   runs the thread, and the GUI does not keep the mutex away from it, for that many turns.  Both
+   halves are needed ([C20_fairness_needed]); any schedule made of rounds "GUI activity ending
+   with the release of the mutex, then one turn of the thread" satisfies it ([C20_fair_rounds]).
+
+   PARTIAL BY NATURE (named in the evidence): no real scheduler and no std::sync::Mutex fairness
+   (the hypothesis above is assumed of them, not proved), no poisoning (a panic inside read is
+   another property's subject), an unbounded socket send buffer (the server drains what the GUI
+   writes), no select(2) corner cases (EINTR), no TCP segmentation inside a TLS record, and
+   OpenSSL's record handling taken as "one record per pull, no read-ahead"; those are sampled by
+   the seeded runs of the real threads only. *)
 From RdpV Require Import Base GuiLoop C20_proofs.
 
 (* Stops with the session.  Take ANY schedule, let the session end there in any of the four ways
    (disconnect ultimatum, undecodable PDU of either error class, TLS close_notify / FIN without
-   alert / RST), followed by ANY further schedule: once the environment is silent the thread runs
-   into its exit within [fuel_of s] of its own steps (3 per pending PDU fragment + 1 per pending
-   record + 4) -- it never spins and never stays blocked.  Exited = the closure returned, i.e.
-   the JoinHandle finishes and the thread's clone of the shared client is dropped. *)
+   alert / RST), followed by ANY further schedule -- the GUI may hold the mutex at that moment,
+   be writing, or be blocked itself.  Then every server-silent FAIR continuation ends with the
+   thread at its exit and the client released (the harness's rel=1: thread finished, only the
+   owner's handle on the Arc left, mutex not held by the thread). *)
 Theorem C20_terminates :
-  forall (sc : list (option action)) (k : endkind) (more : list (option action)),
+  forall (sc : list (option action)) (k : endkind) (more fin : list (option action)),
     let s := run repaired (sc ++ [Some (end_action k)] ++ more) init in
-    exists s', quiesce repaired (fuel_of s) s = RQuiet s' /\ pcs s' = Exited.
+    let s' := run repaired fin s in
+    forallb silent fin = true -> (fuel_of s <= turns repaired fin s)%nat ->
+    pcs s' = Exited /\ released s' = true.
 Proof. exact loop_terminates. Qed.
 Print Assumptions C20_terminates.
 
-(* Never spins, whether or not the session has ended: from every reachable state the thread
-   comes to rest (blocked in select / in a read, or exited) within [fuel_of] steps. *)
+(* The same as a safety statement, without any fairness: after the session has ended the thread is
+   never at rest (blocked in select or in a read) -- if it is not at its exit it can step, or it
+   is waiting for the GUI to release the mutex. *)
+Theorem C20_ended_never_rests :
+  forall (sc : list (option action)) (k : endkind) (more : list (option action)),
+    let s := run repaired (sc ++ [Some (end_action k)] ++ more) init in
+    settled repaired s = true -> pcs s = Exited.
+Proof. exact loop_exited_if_settled. Qed.
+Print Assumptions C20_ended_never_rests.
+
+(* Never spins, whether or not the session has ended and WHATEVER the GUI does with the mutex: in any
+   server-silent continuation of any schedule the thread takes at most [measure s] < [fuel_of s] steps
+   (no fairness needed); and left alone it comes to rest within [fuel_of s] steps. *)
 Theorem C20_never_spins :
-  forall (sc : list (option action)),
+  forall (sc fin : list (option action)),
+    forallb silent fin = true ->
+    (moves repaired fin (run repaired sc init) <= measure (run repaired sc init))%nat /\
     exists s', quiesce repaired (fuel_of (run repaired sc init)) (run repaired sc init) = RQuiet s'.
-Proof. exact loop_never_spins. Qed.
+Proof. exact loop_never_spins_full. Qed.
 Print Assumptions C20_never_spins.
 
 (* In order, nothing invented: at every moment of every schedule the events forwarded on the
@@ -47,25 +81,173 @@ Theorem C20_order :
 Proof. exact loop_order. Qed.
 Print Assumptions C20_order.
 
-(* Keeps up without further traffic: after ANY schedule (any packing, any interleaving) in which
-   the connection was not reset and the GUI has not cleared `sync`, once the server is silent the
-   thread comes to rest having forwarded EVERY event sent so far; and if it has not exited it is
-   blocked with the TLS buffer empty, the socket empty and the connection open -- nothing is left
+(* Keeps up without further traffic: after ANY schedule (any packing, any interleaving with the GUI)
+   in which the connection was not reset, every server-silent FAIR continuation in which the GUI does
+   not clear `sync` ends with EVERY event sent so far forwarded; and if the thread has not exited it
+   is blocked with the TLS buffer empty, the socket empty and the connection open -- nothing is left
    waiting for "more traffic". *)
 Theorem C20_drains :
-  forall (sc : list (option action)),
-    closed (run repaired sc init) <> Some Reset -> sync (run repaired sc init) = true ->
-    exists s', quiesce repaired (fuel_of (run repaired sc init)) (run repaired sc init) = RQuiet s' /\
-               out s' = evs_of (hist (run repaired sc init)) /\
-               (pcs s' <> Exited -> tls s' = [] /\ sock s' = [] /\ closed s' = None).
+  forall (sc fin : list (option action)),
+    let s := run repaired sc init in
+    let s' := run repaired fin s in
+    forallb silent fin = true -> (fuel_of s <= turns repaired fin s)%nat ->
+    closed s <> Some Reset -> sync s' = true ->
+    out s' = evs_of (hist s) /\ (pcs s' <> Exited -> tls s' = [] /\ sock s' = [] /\ closed s' = None).
 Proof. exact loop_drains. Qed.
 Print Assumptions C20_drains.
 
+(* The same as a safety statement, without any fairness: in EVERY reachable state in which the thread is
+   at rest and not waiting for the GUI's mutex, everything sent has been forwarded. *)
+Theorem C20_drained_when_settled :
+  forall (sc : list (option action)),
+    let s := run repaired sc init in
+    settled repaired s = true -> closed s <> Some Reset -> sync s = true ->
+    out s = evs_of (hist s) /\ (pcs s <> Exited -> tls s = [] /\ sock s = [] /\ closed s = None).
+Proof. exact loop_drained. Qed.
+Print Assumptions C20_drained_when_settled.
+
+(* Mutual exclusion: in every reachable state the thread is inside the client (AtRead / AtUnlock / AtDrop)
+   exactly when the mutex says HeldByRecv; never both threads inside; and an action of the GUI that
+   touches the client (anything that changes what was written to the socket) happens with the GUI
+   holding the mutex and the thread outside. *)
+Theorem C20_mutex_exclusion :
+  forall (sc : list (option action)),
+    let s := run repaired sc init in
+    (recv_inside s = true <-> lock s = HeldByRecv) /\
+    ~ (recv_inside s = true /\ gui_holds s = true) /\
+    (forall a, outb (env_step a s) <> outb s \/ wshut (env_step a s) <> wshut s ->
+               gui_holds s = true /\ recv_inside s = false).
+Proof. exact loop_mutex_exclusion. Qed.
+Print Assumptions C20_mutex_exclusion.
+
+(* No deadlock: in every reachable state
+   - the thread can step, or has exited, or waits for the SERVER (select on an empty open socket, or a
+     read in the middle of a PDU), or waits for a mutex that the GUI holds -- and the GUI's unlock,
+     which nothing blocks, lets it step;
+   - a lock() of the GUI can block only on a mutex held by the thread, which then can step or is
+     waiting for the server to complete a PDU (the GUI is then frozen until the server does: an
+     observation about the GUI, not about the receive thread);
+   - the two never wait for the mutex at once.
+   So the only thing either thread ever waits for, directly or through the other, is the server. *)
+Theorem C20_no_deadlock :
+  forall (sc : list (option action)),
+    let s := run repaired sc init in
+    (tstep repaired s <> None \/ pcs s = Exited \/ waits_for_server s \/
+     (pcs s = AtLock /\ lock s = HeldByGui /\ tstep repaired (env_step GuiUnlock s) <> None)) /\
+    (lock s <> Free -> lock s <> HeldByGui ->
+     recv_inside s = true /\
+     (tstep repaired s <> None \/ (pcs s = AtRead /\ tls s = [] /\ sock s = [] /\ closed s = None))) /\
+    (lock s = Free -> pcs s = AtLock -> tstep repaired s <> None).
+Proof. exact loop_no_deadlock. Qed.
+Print Assumptions C20_no_deadlock.
+
+(* Input writes of the GUI change nothing on the receive side: erase every try_write / shutdown from ANY
+   schedule and the run ends in the same state up to the outbound side of the socket -- same forwarded
+   events in the same order, same program point, same mutex, same buffers.  (That the GUI's TAKING of
+   the mutex loses nothing either is C20_drains / C20_order: they hold for every interleaving.) *)
+Theorem C20_gui_writes_do_not_lose_events :
+  forall (sc : list (option action)),
+    recv_view (run repaired sc init) = recv_view (run repaired (erase_writes sc) init) /\
+    out (run repaired sc init) = out (run repaired (erase_writes sc) init) /\
+    pcs (run repaired sc init) = pcs (run repaired (erase_writes sc) init).
+Proof. exact loop_gui_writes. Qed.
+Print Assumptions C20_gui_writes_do_not_lose_events.
+
+(* Release: in every reachable state, once the thread has exited the strong count is back to the owner's
+   handle, the thread does not hold the mutex (every way out of the locked block drops the guard), and the
+   mutex is Free as soon as the GUI is outside its own critical section; before the exit the thread's
+   clone is alive (count 2).  With C20_terminates: after the session ends the client is released. *)
+Theorem C20_release :
+  forall (sc : list (option action)),
+    let s := run repaired sc init in
+    (pcs s = Exited -> released s = true /\ refs s = 1%nat /\ lock s <> HeldByRecv /\
+                       (lock s = Free \/ lock (env_step GuiUnlock s) = Free)) /\
+    (pcs s <> Exited -> released s = false /\ refs s = 2%nat).
+Proof. exact loop_release. Qed.
+Print Assumptions C20_release.
+
+(* The GUI stops the thread.  `sync` is looked at only after select() returns.  Once it is cleared and the
+   thread is in (or on its way back to) select -- [stopping] -- NOTHING more is forwarded, whatever follows
+   (server traffic included); and as soon as the socket is readable (any traffic, or the connection's end)
+   every server-silent fair continuation takes the thread to its exit with the client released: it leaves
+   at its next wake-up, without reading.  From any other moment of the cycle a fair silent schedule first
+   takes it to its exit or to a wait for the server (second statement). *)
+Theorem C20_stop_by_gui :
+  forall (sc more fin : list (option action)),
+    let s := run repaired sc init in
+    let s1 := run repaired more s in
+    let s2 := run repaired fin s1 in
+    stopping s = true ->
+    out s2 = out s /\
+    (readable s1 = true -> forallb silent fin = true -> (fuel_of s1 <= turns repaired fin s1)%nat ->
+     pcs s2 = Exited /\ released s2 = true).
+Proof. exact loop_stop_by_gui. Qed.
+Print Assumptions C20_stop_by_gui.
+
+Theorem C20_stop_settles :
+  forall (sc fin : list (option action)),
+    let s := run repaired sc init in
+    let s' := run repaired fin s in
+    forallb silent fin = true -> (fuel_of s <= turns repaired fin s)%nat ->
+    pcs s' = Exited \/ waits_for_server s'.
+Proof. exact loop_stop_settles. Qed.
+Print Assumptions C20_stop_settles.
+
+(* OBSERVATION (reproduced on the real threads; outside the statement of C20, which is about the ways the
+   CONNECTION ends): the wake-up is necessary.  main_gui_loop's way of stopping -- clear `sync`, lock,
+   shutdown() (client disconnect ultimatum + TLS close_notify), unlock -- does not wake the thread: as long
+   as the server sends nothing and keeps the connection open, every schedule of GUI actions and thread
+   turns leaves the thread in select(), its clone of the client alive; main()'s join waits for the server
+   to react to the ultimatum. *)
+Theorem C20_stop_needs_wakeup :
+  forall (fin : list (option action)),
+    forallb silent fin = true ->
+    let s := run repaired (stop_sched ++ fin) init in
+    pcs s = AtWait /\ refs s = 2%nat /\ released s = false /\ sync s = false /\
+    outb s = [WUltimatum; WCloseNotify].
+Proof. exact stop_needs_wakeup. Qed.
+Print Assumptions C20_stop_needs_wakeup.
+
+(* The fairness hypothesis is satisfiable by a plain shape of schedule: [length gs] rounds, each "any GUI
+   actions, then the GUI drops its guard (if it holds one), then one turn of the thread", give the thread
+   at least [length gs] turns; hence C20_terminates for such schedules. *)
+Theorem C20_fair_rounds :
+  forall (sc : list (option action)) (k : endkind) (more : list (option action)) (gs : list (list action)),
+    let s := run repaired (sc ++ [Some (end_action k)] ++ more) init in
+    Forall (fun g => forallb (fun a => silent (Some a)) g = true) gs -> (fuel_of s <= length gs)%nat ->
+    (length gs <= turns repaired (concat (map round gs)) s)%nat /\
+    pcs (run repaired (concat (map round gs)) s) = Exited /\
+    released (run repaired (concat (map round gs)) s) = true.
+Proof. exact loop_fair_rounds. Qed.
+Print Assumptions C20_fair_rounds.
+
+(* ... and it cannot be dropped, in either half:
+   (1) a GUI that takes the mutex and never releases it (and does not clear `sync`): whatever the server
+       sends, however the session ends, whatever else is scheduled, the thread never exits, forwards
+       nothing, and the client is not released;
+   (2) a GUI that releases the mutex again and again but takes it back before the thread's next turn
+       starves the thread: after any number of such rounds it still sits in lock() -- the schedule gives it
+       0 turns in the sense of [turns].  (std::sync::Mutex makes no fairness promise; the real GUI loop
+       holds the mutex for a few writes per 16 ms frame.) *)
+Theorem C20_fairness_needed :
+  (forall (k : endkind) (fin : list (option action)),
+     Forall keeps_holding fin ->
+     let s := run repaired ([Some GuiLock; Some (Send [Fin (PEvents [1])]); Some (end_action k)] ++ fin) init in
+     pcs s <> Exited /\ out s = [] /\ released s = false) /\
+  (forall (k : endkind) (n : nat),
+     let s0 := run repaired [Some GuiLock; Some (end_action k); None; None] init in
+     let s := run repaired (concat (repeat starve_round n)) s0 in
+     pcs s = AtLock /\ lock s = HeldByGui /\ released s = false /\
+     turns repaired (concat (repeat starve_round n)) s0 = O).
+Proof. exact (conj fairness_needed_hold fairness_needed_starve). Qed.
+Print Assumptions C20_fairness_needed.
+
 (* The loop AS FOUND refutes both halves (these are the two defects repaired in /repo, reproduced
    against the real thread before the repair):
-   (i) after a TLS close_notify it iterates forever -- no amount of fuel brings it to rest;
-   (ii) with three PDUs in one TLS record it forwards the first event, goes back to select and
-   stays blocked with an event AND a disconnect ultimatum in the TLS buffer. *)
+   (i) after a TLS close_notify it iterates forever -- no amount of fuel brings it to rest -- taking
+       the client mutex in every iteration;
+   (ii) with three PDUs in one TLS record it forwards the first event, releases the mutex, goes back
+        to select and stays blocked with an event AND a disconnect ultimatum in the TLS buffer. *)
 Theorem C20_original_spins :
   forall fuel, exists s, quiesce original fuel (env_step (Close CloseNotify) init) = RSpin s.
 Proof. exact original_spins. Qed.
@@ -74,17 +256,31 @@ Print Assumptions C20_original_spins.
 Theorem C20_original_stalls :
   exists s', quiesce original (fuel_of coalesced) coalesced = RQuiet s' /\
              pcs s' = AtWait /\ out s' = [1] /\ tls s' = [Fin (PEvents [2]); Fin (PFail ERdp)] /\
-             sock s' = [] /\ closed s' = None.
+             sock s' = [] /\ closed s' = None /\ lock s' = Free.
 Proof. exact original_stalls. Qed.
 Print Assumptions C20_original_stalls.
 
-(* Non-vacuity: on the two witnesses above the repaired loop exits (having forwarded [1;2]); and a
-   schedule that splits one PDU over three records, coalesces the rest of it with two more PDUs,
-   lets the thread step in between and ends with a FIN delivers exactly [7;8;9] and exits. *)
+(* Non-vacuity: on the two witnesses above the repaired loop exits (having forwarded [1;2]) and releases
+   the client; a schedule that splits one PDU over records, coalesces others, has the GUI block on the
+   mutex while the thread sits in a half-read PDU, then hold the mutex while data arrives AND while the
+   session ends (FIN), satisfies the fairness hypothesis with a tail of 40 lock/write/unlock rounds,
+   delivers exactly [7;8;9], exits, releases the client, and the server has seen the two inputs written
+   while the connection was open; and main_gui_loop's stop sequence followed by the server's close_notify
+   takes the thread out without reading. *)
 Theorem C20_nonvacuous :
-  ((exists s', quiesce repaired (fuel_of dead) dead = RQuiet s' /\ pcs s' = Exited) /\
-   (exists s', quiesce repaired (fuel_of coalesced) coalesced = RQuiet s' /\ pcs s' = Exited /\ out s' = [1; 2])) /\
-  (exists s', quiesce repaired (fuel_of (run repaired ex_sched init)) (run repaired ex_sched init) = RQuiet s' /\
-              pcs s' = Exited /\ out s' = [7; 8; 9] /\ evs_of (hist s') = [7; 8; 9]).
-Proof. exact (conj repaired_on_witnesses ex_run). Qed.
+  ((exists s', quiesce repaired (fuel_of dead) dead = RQuiet s' /\ pcs s' = Exited /\ released s' = true) /\
+   (exists s', quiesce repaired (fuel_of coalesced) coalesced = RQuiet s' /\ pcs s' = Exited /\ out s' = [1; 2] /\
+               released s' = true)) /\
+  (let s := run repaired ex_sched init in
+   let s' := run repaired ex_tail s in
+   forallb silent ex_tail = true /\ (fuel_of s <= turns repaired ex_tail s)%nat /\
+   pcs s = AtLock /\ lock s = HeldByGui /\ out s = [7] /\
+   pcs s' = Exited /\ out s' = [7; 8; 9] /\ evs_of (hist s') = [7; 8; 9] /\ released s' = true /\
+   outb s' = [WInput 1; WInput 2]) /\
+  (let s1 := run repaired ex_stop init in
+   let s2 := run repaired (repeat None 10) s1 in
+   stopping (run repaired ([Some (Send [Fin (PEvents [5])]); None; None; None; None; None; None] ++ [Some GuiStop]) init) = true /\
+   readable s1 = true /\ (fuel_of s1 <= turns repaired (repeat None 10) s1)%nat /\
+   pcs s2 = Exited /\ released s2 = true /\ out s2 = [5] /\ outb s2 = [WUltimatum; WCloseNotify]).
+Proof. exact (conj repaired_on_witnesses (conj ex_run ex_stop_run)). Qed.
 Print Assumptions C20_nonvacuous.
